@@ -92,7 +92,11 @@ TraceCounts == IsEvent("Counts") /\ (\A k \in 1..Len(Rec[l].eq) : Rec[l].eq[k][1
    reads a reference container of the pinned version to its recorded logical content *)
 TraceLogical == IsEvent("Logical") /\ Rec[l].diffs = 0 /\ UNCHANGED <<cur, blocks, lastEnd, packs, drift>>
 
-TraceNext == TraceFile \/ TracePack \/ TraceBlock \/ TracePtr \/ TraceData \/ TraceLocator \/ TraceCounts \/ TraceLogical
+(* application fields (free data of packs and indexes, index key): the decoder finds, and the reader
+   returns, the bytes that were given *)
+TraceFields == IsEvent("Fields") /\ Rec[l].ok /\ UNCHANGED <<cur, blocks, lastEnd, packs, drift>>
+
+TraceNext == TraceFields \/ TraceFile \/ TracePack \/ TraceBlock \/ TracePtr \/ TraceData \/ TraceLocator \/ TraceCounts \/ TraceLogical
 TraceSpec == TraceInit /\ [][TraceNext]_tvars
 Done == (l = Len(Rec) + 1) => PrintT(<<"DRIFT", drift>>)
 TraceAccepted ==
